@@ -75,41 +75,73 @@ func c06Check(c *hist.Case, r *evid.Rec) []evid.Disc {
 		}
 		for cid := range N {
 			if R[cid] == 0 {
-				ds = append(ds, evid.D("C06-nonshared-subscriber-missed", "%s: %s holds a matching non-shared subscription but received nothing", desc, cid))
+				sig := "C06-nonshared-subscriber-missed"
+				if cid == ti.CID {
+					for f, st := range sn.Subs[cid] {
+						if _, _, sh, _ := reftopic.SplitShare(f); !sh && st.Opts.NoLocal && reftopic.MatchSub(f, ti.Topic) {
+							sig = "C06-publisher-with-overlapping-no-local-subscription-missed" // C03's open finding seen from here
+						}
+					}
+				}
+				ds = append(ds, evid.D(sig, "%s: %s holds a matching non-shared subscription but received nothing", desc, cid))
 			}
 		}
 		// does a choice of one representative per group explain R exactly?
-		explained := false
-		var rec func(i int, chosen map[string]bool)
-		rec = func(i int, chosen map[string]bool) {
-			if explained {
-				return
-			}
-			if i == len(gkeys) {
-				// R must equal N ∪ chosen
-				for cid := range R {
-					if !N[cid] && !chosen[cid] {
-						return
+		explain := func(R map[string]int) bool {
+			explained := false
+			var rec func(i int, chosen map[string]bool)
+			rec = func(i int, chosen map[string]bool) {
+				if explained {
+					return
+				}
+				if i == len(gkeys) {
+					// R must equal N ∪ chosen
+					for cid := range R {
+						if !N[cid] && !chosen[cid] {
+							return
+						}
+					}
+					for cid := range chosen {
+						if R[cid] == 0 {
+							return
+						}
+					}
+					explained = true
+					return
+				}
+				for _, mbr := range groups[gkeys[i]] {
+					was := chosen[mbr]
+					chosen[mbr] = true
+					rec(i+1, chosen)
+					if !was {
+						delete(chosen, mbr)
 					}
 				}
-				for cid := range chosen {
-					if R[cid] == 0 {
-						return
-					}
-				}
-				explained = true
-				return
 			}
-			for _, mbr := range groups[gkeys[i]] {
-				was := chosen[mbr]
-				chosen[mbr] = true
-				rec(i+1, chosen)
-				if !was {
-					delete(chosen, mbr)
-				}
+			rec(0, map[string]bool{})
+			return explained
+		}
+		explained := explain(R)
+		// the publisher holds a matching non-shared No Local subscription (v5): the broker merges all of a client's
+		// matching subscriptions and lets No Local win (the open finding of C03), so the publisher's own copy is
+		// withheld even when it is due to it as the representative of a share group
+		pubNoLocal := false
+		for f, st := range sn.Subs[ti.CID] {
+			if _, _, sh, _ := reftopic.SplitShare(f); !sh && st.Opts.NoLocal && reftopic.MatchSub(f, ti.Topic) && run.Peers[ti.Peer].Version == 5 {
+				pubNoLocal = true
 			}
 		}
-		rec(0, map[string]bool{})
+		if !explained && pubNoLocal && R[ti.CID] == 0 {
+			R2 := map[string]int{ti.CID: 1}
+			for k, v := range R {
+				R2[k] = v
+			}
+			if explain(R2) {
+				r.Label("publisher-with-no-local-subscription-is-group-representative")
+				ds = append(ds, evid.D("C06-publisher-chosen-for-its-group-gets-nothing-because-of-its-no-local-subscription", "%s: the receivers are explained only if publisher %s was chosen for its share group; it holds a matching non-shared No Local subscription, and its copy was withheld", desc, ti.CID))
+				explained = true
+			}
+		}
 		if !explained {
 			sig := "C06-selection-not-one-per-group"
 			// classify: a group without any receiver / more receivers than groups allow
@@ -166,7 +198,7 @@ func keysOf(m map[string]bool) []string {
 }
 
 func TestC06(t *testing.T) {
-	r := evid.New("C06", "rapid: 4 clients (clean sessions, v3.1.1/v5) subscribing to shared filters of 3 share names over overlapping topic filters plus non-shared filters, then 1-15 publishes at QoS 0-2 with prompt acknowledgements and large capacities; oracle: with N = clients entitled through non-shared subscriptions and G_i = connected members of each matching (share name, filter) group, the set R of receivers must equal N plus exactly one representative per group for some choice of representatives (brute force), and every receiver gets exactly one copy; non-trivial = a matching group with >=2 connected members; distinct by (groups, N, topic)")
+	r := evid.New("C06", "rapid: 4 clients (clean sessions, v3.1.1/v5) subscribing to shared filters of 3 share names over overlapping topic filters plus non-shared filters (one in four with No Local), then 1-15 publishes at QoS 0-2 with prompt acknowledgements and large capacities; oracle: with N = clients entitled through non-shared subscriptions and G_i = connected members of each matching (share name, filter) group, the set R of receivers must equal N plus exactly one representative per group for some choice of representatives (brute force), and every receiver gets exactly one copy; non-trivial = a matching group with >=2 connected members; distinct by (groups, N, topic)")
 	defer r.Finish(t)
 	if evid.ReplayMode() {
 		evid.Replay(t, r, replayPath(), c06Check)
@@ -182,6 +214,16 @@ func TestC06(t *testing.T) {
 	g.WSubscribe, g.WPublish, g.WUnsubscribe, g.WDisconnect, g.WDrop, g.WConnect = 8, 6, 1, 1, 0, 1
 	evid.Run(t, r, func(rt *rapid.T) *hist.Case {
 		c := g.Draw(rt)
+		// non-shared subscriptions sometimes carry No Local (v5; ignored by the executor's model for older versions)
+		for i := range c.Actions {
+			if a := &c.Actions[i]; a.Kind == "subscribe" {
+				for j := range a.Filters {
+					if !strings.HasPrefix(a.Filters[j].Filter, "$share/") && rapid.IntRange(0, 3).Draw(rt, "nolocal") == 0 {
+						a.Filters[j].NoLocal = true
+					}
+				}
+			}
+		}
 		r.Sample(c.Summary())
 		return c
 	}, c06Check)
